@@ -55,7 +55,8 @@ def classify_exception(proj, cell, exc, t0):
     site, construct, stmt = locate(proj, exc.node)
     # an explicit rejection is a `raise` statement of the repository with one of the rejection types
     # (a message is expected for ValueError; a bare NotImplementedError already says "unsupported")
-    explicit = isinstance(exc.node, ast.Raise) and exc.etype in EXPLICIT and (bool(str(exc.msg).strip()) or exc.etype == "NotImplementedError")
+    explicit = isinstance(exc.node, ast.Raise) and (exc.etype in EXPLICIT or any(S.raised_is(exc, e_) for e_ in EXPLICIT)) and \
+        (bool(str(exc.msg).strip()) or exc.etype == "NotImplementedError")
     return Outcome(cell, "rejected" if explicit else "internal", exc.etype, str(exc.msg)[:200], site, construct, stmt, time.time() - t0)
 
 
